@@ -41,7 +41,7 @@ CLAIMED = {
             "value trees, numbers as limbs), WireJson (JSON/map form), Stream (Write*/Read* pairs over a reader that splits its reads "
             "arbitrarily), Deser (Serializer/Deserializer primitives), StreamBuf. TLC checks round trip, consumed = produced, all read "
             "splittings and Enc determinism on small scopes; TLC-generated (schema, value, bytes, chunking) tables are replayed on the real "
-            "serix API / stream helpers for a catalogue of 73 + 11 Go types (model -> code), and records of random values and chunkings "
+            "serix API / stream helpers for a catalogue of 75 + 11 Go types (model -> code), and records of random values and chunkings "
             "from the real code are validated by TLC (code -> model).",
             "Real-code shapes limited to the hand-written type catalogue; custom Serializable types opaque; NaN payloads bitwise.",
             "TLA+ declarative codec models (TLC small-scope exhaustive), model-generated tables replayed on the code, TLC record validation"),
@@ -194,7 +194,7 @@ def main():
     hooks_commits = []
     try:
         out = subprocess.run(["git", "-C", "/repo", "log", "--format=%h %s"], stdout=subprocess.PIPE, text=True).stdout
-        hooks_commits = [l.split()[0] for l in out.splitlines() if l.split(" ", 1)[1].startswith("verif:")]
+        hooks_commits = [l.split()[0] for l in out.splitlines() if l.split(" ", 1)[1].startswith(("verif:", "verif hook:"))]
     except Exception:
         pass
     checks = []
